@@ -20,8 +20,21 @@ sys.exit(harness.replay({function!r}, {clause!r}))
 '''
 
 
+NATIVE_TEMPLATE = '''#!/venv/bin/python
+"""Replay of a failing bounded native check.  property: {prop}  obligation: {name}"""
+import os, sys, json, subprocess
+os.environ.setdefault("HGV_REPO", {repo!r})
+p = subprocess.run(["/venv/bin/python", "-m", "hgv_native.run", {check!r}], capture_output=True, text=True, cwd={verif!r})
+print(p.stdout)
+res = json.loads([l for l in p.stdout.splitlines() if l.startswith("{{")][-1])
+sys.exit(1 if res.get("ok") is False else 0)
+'''
+
+
 def build_script(prop, name, recs):
     _, function, clause = name.split("/", 2)
+    if recs and recs[0].get("bounded"):
+        return NATIVE_TEMPLATE.format(prop=prop, name=name, repo=REPO, verif=VERIF, check=recs[0]["native_check"])
     model = json.dumps([{k: r.get(k) for k in ("path", "variant", "verdict", "model")} for r in recs], indent=1)
     return TEMPLATE.format(
         prop=prop,
